@@ -108,6 +108,12 @@ pub fn blocks(thorough: bool) -> Vec<Block> {
         b.push(Block::new(Universe::new("U_a1sp-{a,1,space,-}", &["a", "1", " ", "-"], 2, 3, true), anch(&lattice_all(0, CLASS_BITS).iter().map(|c| c.bits).collect::<Vec<u32>>()), "{na,ne,na+ne} x all 64 class subsets"));
         b.push(Block::new(u_kind_triples(), anch(&[0, X, R]), "{na,ne,na+ne} x {{}, x, r}"));
     }
+    if thorough {
+        // the thorough space is a superset of the quick one: every quick block first, then the deeper ones
+        let mut all = blocks(false);
+        all.extend(b);
+        return all;
+    }
     b
 }
 
